@@ -288,14 +288,28 @@ def _expl_name(expl):
 
 
 def mk_mismatch(clause, text, expected, observed, explained_by, origin, prop=None):
+    """property = the property the differing clause belongs to, refined by the explaining deviation(s)."""
+    base = PROPERTY_OF_CLAUSE.get(clause, 'C06')
+    props = {base}
+    if explained_by:
+        names = re.split(r'[+|]', explained_by)
+        dp = {PROPERTY_OF_DEVIATION.get(n, base) for n in names}
+        props = dp | ({base} if base in dp else set())
+        if prop is None:
+            if len(names) == 1:
+                prop = PROPERTY_OF_DEVIATION.get(names[0], base)
+            elif base in dp:
+                prop = base
+            elif base == 'C06' and 'C15' in dp:
+                prop = 'C15'
+            else:
+                prop = sorted(dp)[0]
     if prop is None:
-        prop = PROPERTY_OF_CLAUSE.get(clause, 'C06')
-        if explained_by:
-            first = re.split(r'[+|]', explained_by)[0]
-            prop = PROPERTY_OF_DEVIATION.get(first, prop)
-    return {'property': prop, 'kind': clause, 'input': text, 'expected': expected, 'observed': observed,
-            'explained_by': explained_by, 'non_defect': bool(explained_by) and explained_by in IMPL_DETAIL,
-            'origin': origin}
+        prop = base
+    props.add(prop)
+    return {'property': prop, 'properties': sorted(props), 'kind': clause, 'input': text, 'expected': expected,
+            'observed': observed, 'explained_by': explained_by,
+            'non_defect': bool(explained_by) and explained_by in IMPL_DETAIL, 'origin': origin}
 
 
 # ============================================================================== TLC plumbing
@@ -331,8 +345,9 @@ def _add_mismatch(st, m):
     st['mismatch_count'] += 1
     key = m['explained_by'] or 'UNEXPLAINED'
     st['by_explanation'][key] = st['by_explanation'].get(key, 0) + 1
-    bp = st['by_property'].setdefault(m['property'], {})
-    bp[key] = bp.get(key, 0) + 1
+    for prop in m.get('properties', [m['property']]):
+        bp = st['by_property'].setdefault(prop, {})
+        bp[key] = bp.get(key, 0) + 1
     if m['explained_by']:
         st['explained_count'] += 1
     else:
@@ -1396,7 +1411,7 @@ def _view(st, prop):
     out['explained_count'] = sum(v for k, v in mine.items() if k != 'UNEXPLAINED')
     out['unexplained_count'] = unexpl
     out['mismatch_count'] = out['explained_count'] + unexpl
-    out['mismatches'] = [m for m in st['mismatches'] if m['property'] == prop or not m['explained_by']]
+    out['mismatches'] = [m for m in st['mismatches'] if prop in m.get('properties', [m['property']]) or not m['explained_by']]
     return out
 
 
@@ -1440,6 +1455,46 @@ def check_C20(tier='quick', seed=0, deviations=ALL_DEVIATIONS):
     b = _new_stats()
     run_cases_b(generate_cases(tier, seed, ('c20', 'truncation', 'mutation')), deviations, b)
     return _view(_merge(st, b), 'C20')
+
+
+def check_C06_spec(tier='quick', seed=0, deviations=ALL_DEVIATIONS):
+    """Self-check of the SPECIFICATION (no implementation involved): the normative parser ParseD(., {}) against the
+    declarative reading of C06 -- all derivation trees of the grammar (from Productions) filtered by the operator table
+    (SQGrammarValid.tla): Sound, Complete, Unique, Derivable on all token strings up to a bound."""
+    st = _new_stats()
+    t0 = time.time()
+    q = tier == 'quick'
+    groups = [
+        _grp(4 if q else 5, ['a', '+', '**', '-', 'not', 'in', '(', ')'] + ([] if q else ['=='])),
+        _grp(4 if q else 5, ['a', '.', '|', '(', ')', '[', ']', '-'] + ([] if q else [':'])),
+    ] + ([] if q else [
+        _grp(5, ['a', '(', ')', ',', '=>', 'if', 'else', '+']),
+        _grp(6, ['a', '{', '}', ':', ',', '[']),
+        _grp(5, ['a', '[', ']', '=', '+=', 'del', 'nl', '1']),
+    ])
+    cfgfile = os.path.join(common.scratch_dir('lexparse'), 'mc_valid_%s.json' % tier)
+    with open(cfgfile, 'w') as f:
+        json.dump({'groups': [{'maxlen': g['maxlen'], 'alphabet': g['alphabet']} for g in groups]}, f)
+    r = common.run_tlc('MC_ParseValid', cfg='MC_ParseValid.cfg', env={'LEXPARSE_CFG': cfgfile, 'JAVA_TOOL_OPTIONS': '-Xss256m'},
+                       timeout=900 if q else 3000)
+    if r.invariant_violated or 'Assumption' in r.out and 'is false' in r.out:
+        mg = re.findall(r'/\\ g = (\d+)', r.out)
+        ms = re.findall(r'/\\ s = <<([\d, ]*)>>', r.out)
+        wit = None
+        if mg and ms:
+            wit = _render_lexemes(groups[int(mg[-1]) - 1], [int(x) for x in ms[-1].split(',') if x.strip()])
+        m = mk_mismatch('spec:' + str(r.invariant_violated or 'ASSUME'), wit or '', 'normative Parse = grammar filtered by table',
+                        'invariant violated on the specification itself', None, 'spec', 'C06')
+        _add_mismatch(st, m)
+    elif not r.ok:
+        raise MachineryError('TLC failed on MC_ParseValid: rc=%s\n%s' % (r.rc, r.out[-3000:]))
+    st['states'] = st['transitions'] = r.generated
+    st['distinct'] = st['evaluations'] = r.distinct
+    st['wall_s'] = time.time() - t0
+    st['runs'].append({'model': 'MC_ParseValid', 'invariants': ['InvSound', 'InvComplete', 'InvUnique', 'InvDerivable'],
+                       'groups': [[g['maxlen'], g['names']] for g in groups], 'strings': r.distinct,
+                       'tlc_wall_s': round(r.wall, 1)})
+    return _view(st, 'C06')
 
 
 # ---- C16: hostile inputs in a subprocess (death by signal = violation)
@@ -1655,7 +1710,7 @@ def main(argv):
     ap.add_argument('--seed', type=int, default=int(os.environ.get('VERIF_SEED', '0')))
     ap.add_argument('--deviations', default=','.join(ALL_DEVIATIONS),
                     help='comma separated list of deviations currently listed as present in the code ("" = none)')
-    ap.add_argument('--only', default='', help='a, b, C06, C15, C16, C18, C20')
+    ap.add_argument('--only', default='', help='a, b, spec, C06, C15, C16, C18, C20')
     ap.add_argument('--json', default='')
     ap.add_argument('--selftest', default='', help='corruption | deviation-models | mutants | mutants:<name>,<name>')
     a = ap.parse_args(argv)
@@ -1675,8 +1730,8 @@ def main(argv):
         print('SELFTEST %s' % ('PASSED' if ok else 'FAILED'))
         return 0 if ok else 1
     devs = tuple(d for d in a.deviations.split(',') if d)
-    todo = [x for x in a.only.split(',') if x] or ['a', 'b']
-    fns = {'a': run_direction_a, 'b': run_direction_b, 'C06': check_C06, 'C15': check_C15, 'C16': check_C16_syntax,
+    todo = [x for x in a.only.split(',') if x] or ['a', 'b', 'spec']
+    fns = {'a': run_direction_a, 'b': run_direction_b, 'spec': check_C06_spec, 'C06': check_C06, 'C15': check_C15, 'C16': check_C16_syntax,
            'C18': check_C18_names, 'C20': check_C20}
     bad = 0
     results = {}
